@@ -1,5 +1,6 @@
 import HpoProofs.Combine
 import HpoProofs.RoundedSet
+import HpoProofs.CombineFast
 /-!
 # C05 — set similarity = funSimAvg / funSimMax / BMA of the pairwise matrix
 
@@ -329,6 +330,16 @@ example : ∃ sim : ℕ → ℕ → RVal Rounding.exact, (∀ x y, sim x y = sim
   · intro h
     have := congrArg RVal.v h
     norm_num at this
+
+/-! ## tie machinery: one-row matrices at the u16 limit -/
+
+/-- The closed form the driver evaluates for one-row matrices with tens of thousands of columns
+(the row / column loops of the model are quadratic there) IS `SimilarityCombiner::calculate` of the
+model on the `1 × n` matrix, for every numeric instance, the documented panic beyond 65 535 columns
+included. -/
+theorem C05_one_row_closed_form {F : Type} [Num F] (cb : Combine.Combiner) (data : List F) :
+    Combine.calculateOneRow cb data = Combine.calculate cb { rows := 1, cols := data.length, data := data } :=
+  Combine.calculateOneRow_eq cb data
 
 /-! ## non-vacuity: a 2 × 3 asymmetric instance with non-trivial values -/
 
